@@ -774,3 +774,123 @@ def site_ssl_engines(seed, centered, mask_kind="random"):
 
 
 SITE_CHECKS.append(("ssl-engines", site_ssl_engines))
+
+
+def _dense_solve(fop, S, m, y, z, lam):
+    """float64 dense solve of (A^H A + lam) x = A^H y + lam z per batch element, A = M F E built from the real operator"""
+    import direct.data.transforms as T
+
+    n_, c_, h_, w_ = S.shape[:4]
+    npx = h_ * w_
+    eye = torch.zeros(npx, h_, w_, 2)
+    for j in range(npx):
+        eye[j, j // w_, j % w_, 0] = 1.0
+    out = []
+    for b in range(n_):
+        k = torch.where(m[b:b + 1] == 0, ZERO, fop(T.expand_operator(eye, S[b:b + 1], dim=1), dim=(2, 3)))
+        A = torch.view_as_complex(k.contiguous()).reshape(npx, c_ * npx).T.to(torch.complex128)
+        yc = torch.view_as_complex(y[b].contiguous()).reshape(-1).to(torch.complex128)
+        zc = torch.view_as_complex(z[b].contiguous()).reshape(-1).to(torch.complex128)
+        out.append(torch.linalg.solve(A.conj().T @ A + lam * torch.eye(npx, dtype=torch.complex128), A.conj().T @ yc + lam * zc))
+    return torch.stack(out)
+
+
+# how the update type reaches the block: enum member, its name in any case, and through the structured config
+# (a plain lower-case string handed directly to the constructor is outside the documented forms: `self.bk_update_type == "FR"`
+#  is then an ordinary string comparison and the `else` (BAN) branch runs; the structured config rejects such a value —
+#  recorded as an observation by `lowercase_update_type_note`, not judged)
+_CGNET_UPDATE_FORMS = [("FR", "enum"), ("PRP", "enum"), ("FR", "str"), ("PRP", "str"), ("FR", "config"), ("PRP", "config"),
+                       ("FR", "default")]
+
+
+def lowercase_update_type_note():
+    from direct.nn.conjgradnet.conjgrad import ConjGrad
+
+    fop, bop = real_ops(True)
+    S, y, m, g = problem(11, (1, 2, 3, 3), "random")
+    z = torch.randn(1, 3, 3, 2, generator=g)
+    lam = torch.tensor([0.5])
+    with torch.no_grad():
+        outs = {f: ConjGrad(fop, bop, num_iters=40, tol=1e-9, bk_update_type=f)(y, S, m, z, lam) for f in ("FR", "fr", "BAN")}
+    same_as_ban = bool(torch.equal(outs["fr"], outs["BAN"]))
+    return {"observation": "ConjGrad(bk_update_type='fr') given as a plain lower-case string (not CGUpdateType, not through the config, "
+                           "which rejects it) " + ("runs the BAN branch" if same_as_ban else "does not run the BAN branch") +
+                           f"; deviation from the FR result {rel(outs['fr'], outs['FR']):.3g} — outside the documented argument forms"}
+
+
+def site_conjgradnet(seed, centered, mask_kind="random"):
+    """ConjGradNet (the caller of ConjGrad outside the anchored file): every `self.conj_grad(...)` call inside a real
+    ConjGradNet.forward is observed with a forward hook; its output must solve (A^H A + mu) x = A^H y + mu z for the z it was
+    given, with y / S / mask the network's own inputs and mu = `self.mu`; z_0 is the SENSE image R F^H y."""
+    from direct.nn.conjgradnet.config import ConjGradNetConfig
+    from direct.nn.conjgradnet.conjgrad import CGUpdateType
+    from direct.nn.conjgradnet.conjgradnet import ConjGradNet
+
+    torch.manual_seed(seed)
+    fop, bop = real_ops(centered)
+    form = _CGNET_UPDATE_FORMS[(seed + _Hist.step * 0) % len(_CGNET_UPDATE_FORMS)]
+    h_, w_ = 4, 3
+
+    def build():
+        name, how = form
+        common = dict(num_steps=2, denoiser_architecture="conv", image_init="sense", no_parameter_sharing=True,
+                      cg_iters=3 * h_ * w_ + 10, cg_tol=1e-9, conv_hidden_channels=2, conv_n_convs=2)
+        if how == "config":
+            from omegaconf import OmegaConf
+            cfg = OmegaConf.merge(OmegaConf.structured(ConjGradNetConfig),
+                                  {"cg_param_update_type": name, "model_name": "conjgradnet.conjgradnet.ConjGradNet"})
+            kw = {k: v for k, v in cfg.items() if k not in ("model_name", "engine_name")}
+            kw.update(common)
+            return ConjGradNet(fop, bop, **kw), None
+        if how == "default":
+            return ConjGradNet(fop, bop, **common), None
+        return ConjGradNet(fop, bop, cg_param_update_type=CGUpdateType(name) if how == "enum" else name, **common), None
+
+    model, _ = persist("conjgradnet/" + "/".join(form), build)
+    with torch.no_grad():
+        model.mu.fill_(0.4 + 0.1 * ((seed + _Hist.step) % 5))
+    S, y, m, _ = problem(seed, (2, 2, h_, w_), mask_kind)
+    calls = []
+
+    def hook(mod, inp, out):
+        calls.append(([a.detach().clone() if isinstance(a, torch.Tensor) else a for a in inp], out.detach().clone()))
+
+    h = model.conj_grad.register_forward_hook(hook)
+    try:
+        with torch.no_grad():
+            out = model(y, S, m)
+    finally:
+        h.remove()
+    fails, n = [], 0
+    tag = "/".join(form)
+    if len(calls) != 3:
+        return 0, [_fail("site-conjgradnet-calls", f"expected 3 conj_grad calls (num_steps + 1), saw {len(calls)}")]
+    mu = float(model.mu.detach())
+    for i, (inp, xo) in enumerate(calls):
+        n += 2
+        ok_args = (len(inp) == 5 and torch.equal(inp[0], y) and torch.equal(inp[1], S) and torch.equal(inp[2], m)
+                   and float(inp[4]) == mu)
+        if not ok_args:
+            fails.append(_fail("site-conjgradnet-args", f"[{tag}] conj_grad call {i} is not (masked_kspace, sensitivity_map, sampling_mask, z, mu)"))
+            break
+        z = inp[3]
+        if i == 0 and not close(z, _sense(bop, y, S), tol=1e-5):
+            fails.append(_fail("site-conjgradnet-init", f"[{tag}] z_0 is not the SENSE image R F^H y"))
+        sol = _dense_solve(fop, S, m, y, z, mu)
+        xc = torch.view_as_complex(xo.contiguous()).reshape(sol.shape).to(torch.complex128)
+        r = float((xc - sol).norm()) / (float(sol.norm()) + 1e-12)
+        if not r <= 2e-3:
+            fails.append(_fail("site-conjgradnet-solution",
+                               f"[{tag}] conj_grad call {i} inside ConjGradNet does not solve (A^H A + mu) x = A^H y + mu z: rel {r:.3g} "
+                               f"(update type given as {form[1]} {form[0]!r}, block holds {model.conj_grad.bk_update_type!r})"))
+            break
+    if not fails and not torch.equal(out, calls[-1][1]):
+        fails.append(_fail("site-conjgradnet-output", f"[{tag}] ConjGradNet.forward does not return the last conjugate-gradient solution"))
+    return n, fails
+
+
+SITE_CHECKS.append(("conjgradnet", site_conjgradnet))
+SITE_TABLE.append(("ConjGradNet.forward → conj_grad / init_z", "nn/conjgradnet/conjgradnet.py", "conjGradForward (call) / sense",
+                   "x_i = argmin ½‖A x − y‖² + ½ mu ‖x − z_i‖²; z_0 = R F^H y",
+                   "conjgradnet_cg_calls_ok, conjgradnet_ctor_args_eq, site_conjgradnet_init_sem, forward_call_args_eq",
+                   "hook on the block inside a real ConjGradNet vs dense solve; update type as enum / string / via config"))
